@@ -59,7 +59,8 @@ def rand_entry(rng):
 def render(es, rng, final_newline=True, trailing_blanks=0):
     lines = []
     for e in es:
-        lines += [b""] * e["blanks"]
+        # separator lines: empty, or white space only (a blank, a tab)
+        lines += [rng.choice([b"", b"", b" ", b"\t", b"  "]) for _ in range(e["blanks"])]
         items = list(e["args"].items())
         opts = b",".join(b" " + k + b"=" + v for k, v in items)
         lines.append(e["source"] + b" (" + e["vtext"] + b") " + e["dists"] + b";" + opts)
@@ -151,6 +152,14 @@ def run(chk):
         if i != w:
             chk.violate({"kind": "property", "case": lib.show_case(("clparse", [t])), "impl": i[:2000], "expected": w[:2000],
                          "explanation": "a dpkg-format changelog was not parsed into its entries (source, version, distributions, options, text, maintainer, timestamp and zone)"})
+    # the same changelogs with CR LF line ends: one entry per block all the same (the CR of a separator line is white space)
+    cc = [("clparse", [t.replace(b"\n", b"\r\n")]) for _, t in docs[::6]]
+    ci = chk.run_impl(cc)
+    chk.record("cr-lf-line-ends", cc, ci)
+    for c, r, (es, t) in zip(cc, ci, docs[::6]):
+        if count_entries(r) != len(es):
+            chk.violate({"kind": "property", "case": lib.show_case(c), "impl": r[:600], "entries_written": len(es),
+                         "explanation": "a changelog with CR LF line ends was not parsed into one entry per block"})
     # the other entry points: ParseFile on a real file, ParseOne / ParseFileOne for the first entry
     vc = [("clvariants", [t]) for t in texts[::4]]
     vi = chk.run_impl(vc)
